@@ -73,14 +73,28 @@ fn real_main() {
         let wit: simfony::WitnessValues = serde_json::from_str(&std::fs::read_to_string(&a[3]).unwrap()).unwrap();
         let c = simfony::CompiledProgram::new(text.as_str(), simfony::Arguments::default(), false).unwrap();
         let cmr = c.commit().cmr();
-        for (name, env) in [("none", None), ("dummy", Some(&cx.env))] {
+        let all_envs = props::c18::envs();
+        let mut list: Vec<(String, Option<&bridge::Env>)> = vec![("none".to_string(), None), ("dummy".to_string(), Some(&cx.env))];
+        for (n, e) in &all_envs {
+            list.push((n.clone(), Some(e)));
+        }
+        for (name, env) in list {
             match c.satisfy_with_env(wit.clone(), env) {
                 Ok(s) => {
                     let (p, w) = s.redeem().encode_to_vec();
                     let d = bridge::decode_redeem(&p, &w);
+                    if let bridge::Outcome::Ok(dd) = &d {
+                        println!("   decoded exec: {}", format!("{:?}", bridge::exec_redeem(dd, env.unwrap_or(&cx.env))).chars().take(160).collect::<String>());
+                        pipeline::walk_redeem(dd, &mut |n| {
+                            if let simfony::simplicity::node::Inner::Witness(v) = n.inner() {
+                                println!("   decoded witness node: type {} value {}", n.arrow().target, v);
+                            }
+                        });
+                        println!("   witness bytes {:?}; same program bytes after re-encoding: {}", w, dd.encode_to_vec().0 == p);
+                    }
                     let (m6, nw) = pipeline::m6_check(s.redeem(), &bridge::cmr_bytes(cmr));
                     println!("{name}: prog {} bytes, witness {} bytes, decode {}, m6 {:?}, witness nodes {nw}, exec {}",
-                        p.len(), w.len(), d.map(|_| ()).brief(), m6, bridge::exec_redeem(s.redeem(), &cx.env).brief());
+                        p.len(), w.len(), d.map(|_| ()).brief(), m6, format!("{:?}", bridge::exec_redeem(s.redeem(), env.unwrap_or(&cx.env))).chars().take(120).collect::<String>());
                     pipeline::walk_redeem(s.redeem(), &mut |n| {
                         if let simfony::simplicity::node::Inner::Witness(v) = n.inner() {
                             println!("   witness node: type {} value {}", n.arrow().target, v);
